@@ -64,6 +64,19 @@ thread_local! {
     static KNOBS: Cell<Knobs> = const { Cell::new(Knobs { ms: 0, bs: 0, cut: 0, xh: 0, pd: 0, og: 0, cl: 0, wr: 0, ic: 0 }) };
 }
 
+thread_local! {
+    static HTTP: Cell<u16> = const { Cell::new(200) };
+}
+
+/// HTTP status of the scripted response of a `clih.` case
+pub fn http_status() -> u16 {
+    HTTP.with(|h| h.get())
+}
+
+pub fn set_http_status(s: u16) {
+    HTTP.with(|h| h.set(s));
+}
+
 pub fn knobs() -> Knobs {
     KNOBS.with(|k| k.get())
 }
@@ -437,6 +450,44 @@ pub fn generate(tier: &str, rng: &mut Rng, out: &mut Vec<String>) {
                 hex(&big),
                 hex(&big)
             ));
+        }
+    }
+
+    // ---- the response's HTTP status as a dimension of the client cases: every status of the
+    // list × response encodings (acceptable, not enabled, unknown) × status placement × shapes
+    let statuses: &[u32] = &[200, 204, 302, 400, 401, 403, 404, 415, 429, 500, 502, 503, 504];
+    let mut rot = 0usize;
+    for &st in statuses {
+        for (acc, ev) in [("g", "deflate"), ("-", "gzip"), ("gz", "br"), ("g", "gzip"), ("dz", "identity"), ("z", ""), ("-", "")] {
+            for (hs, ts) in [(None, None), (None, Some(0)), (None, Some(9)), (Some(0), None), (Some(5), None), (None, Some(12))] {
+                let shapes = ["u", "ss", "cs", "bi", "U", "wbi"];
+                let shape = shapes[rot % shapes.len()];
+                rot += 1;
+                let enc: Vec<Vec<u8>> = if ev.is_empty() { vec![] } else { vec![ev.as_bytes().to_vec()] };
+                let fr = match rot % 3 {
+                    0 => vec![],
+                    1 => vec![(0u8, 'r', b"\0resp".to_vec())],
+                    _ => vec![(1u8, if ev == "gzip" { 'g' } else { 'r' }, b"\0resp resp resp".to_vec())],
+                };
+                let line = cli_line(shape, ["-", "g", "z"][rot % 3], acc, &[], &[], 1, b"\0q", &enc, hs, &fr, ts);
+                out.push(format!("clih.{}", line.strip_prefix("cli.").unwrap().replacen(' ', &format!(" {st} "), 1)));
+            }
+        }
+    }
+    let nh = if thorough { 20000 } else { 1500 };
+    let mut made = 0;
+    while made < nh {
+        let line = cli_random(rng);
+        if !line.contains(" UE 0 UA 0 ") {
+            continue;
+        }
+        made += 1;
+        let st = if rng.chance(1, 6) { rng.range(100, 600) as u32 } else { *rng.pick(statuses) };
+        let inner = format!("clih.{}", line.strip_prefix("cli.").unwrap().replacen(' ', &format!(" {st} "), 1));
+        if rng.chance(1, 4) {
+            out.push(format!("{} {}", random_knobs(rng, 1), inner));
+        } else {
+            out.push(inner);
         }
     }
 
